@@ -6,11 +6,14 @@ import itertools
 import enc
 import gen
 import hkspy
+from props import c13
 from props.common import load_def, mk_dfa, outcome
 
 RULE = ("random pairs of valid DFAs over a common alphabet (1-6 states, partial/complete mixes, 7 name pools), "
         "plus built pairs: a DFA vs a renamed copy with one deep final flag flipped ('differ on one long word'), "
-        "vs itself completed with a trap, vs its sub/superset; the ten comparison answers and isempty/isfinite are "
+        "vs itself completed with a trap, vs its sub/superset, vs the same table with another accepting set (differing in an "
+        "unreachable state where there is one), and series of comparisons of one long-lived left operand with short-lived "
+        "right operands; the ten comparison answers and isempty/isfinite are "
         "compared exactly with the proved model; == is additionally compared with the mirror model of the code's "
         "Hopcroft-Karp/union-find loop (two symbol orders and tie-breaks), and the sequence of union calls observed by a "
         "spy on networkx's UnionFind is compared with the mirror model run under the observed schedule. distinct = distinct canonical (A, B); non-trivial = both "
@@ -138,6 +141,51 @@ def renamed_copy(rng, d, flip=None):
                 initial_state=new[d["initial_state"]], final_states=finals, allow_partial=d["allow_partial"])
 
 
+def same_table_other_finals(rng, d):
+    """The very same states, names and table; the accepting set differs in one state - an unreachable one when the
+    DFA has one (then the languages are equal), any state otherwise."""
+    reach, todo = {d["initial_state"]}, [d["initial_state"]]
+    while todo:
+        for t in d["transitions"].get(todo.pop(), {}).values():
+            if t not in reach:
+                reach.add(t)
+                todo.append(t)
+    unreach = sorted(set(d["states"]) - reach, key=enc.sort_key)
+    pool = unreach if unreach and rng.random() < 0.7 else sorted(d["states"], key=enc.sort_key)
+    out = dict(d)
+    out["final_states"] = set(d["final_states"]) ^ {rng.choice(pool)}
+    return out
+
+
+def check_session(ctx, refdef, otherdefs, tag):
+    """One long-lived left operand compared with a series of short-lived right operands (each dropped before the next
+    is built): the answers must not depend on what was compared before."""
+    ref = mk_dfa(refdef)
+    got = []
+    for od in otherdefs:
+        other = mk_dfa(od)
+        got.append((outcome(lambda: ref == other), outcome(lambda: ref != other), outcome(lambda: ref <= other)))
+        del other
+    sy = enc.SymMap(ref.input_symbols)
+    tr = enc.enc_dfa(ref, None, sy)
+    items = [(6, 1, enc.tree([tr, enc.enc_dfa(mk_dfa(od), None, sy)])) for od in otherdefs]
+    for j, (od, g3, ans) in enumerate(zip(otherdefs, got, ctx.driver.batch(items))):
+        problems = []
+        for name, g, m in zip(("eq", "ne", "le"), g3, (ans[0], ans[1], ans[2])):
+            m = enc.dec_res(m)
+            want = ("ok", m[1] == 1) if m[0] == "ok" else ("err", m[1])
+            if g[:2] != want:
+                problems.append(f"{name}: impl {g} model {want}")
+        ctx.tally("session_comparison")
+        if problems:
+            fresh = outcome(lambda: mk_dfa(refdef) == mk_dfa(od))
+            ctx.violation(f"DFA comparison #{j + 1} of a series on one left operand disagrees with the language statement "
+                          f"(the same comparison on fresh objects gives {fresh}): " + "; ".join(problems),
+                          {"kind": "session", "A": repr(refdef), "Bs": [repr(o) for o in otherdefs], "index": j,
+                           "problems": problems, "tag": tag})
+            return
+
+
 def chain_def(n, sigma, loop_back):
     """0 -> 1 -> ... -> n-1 on the first symbol (long access words), other symbols to a trap or missing."""
     a = sigma[0]
@@ -169,6 +217,8 @@ def run(ctx):
         r = rng.random()
         if r < 0.5:
             bdef, tag = gen.rand_dfa_def(rng, alphabet=sigma), "random"
+        elif r < 0.58:
+            bdef, tag = same_table_other_finals(rng, adef), "same_table_other_finals"
         elif r < 0.65:
             bdef, tag = renamed_copy(rng, adef), "renamed_copy"
         elif r < 0.85:
@@ -182,6 +232,16 @@ def run(ctx):
         if rng.random() < 0.5:
             check_pair(ctx, bdef, adef, tag + "_swapped")
         check_single(ctx, adef)
+        # finite languages: acyclic cores with diamonds, optionally a dead cycle, an unreachable cycle that feeds the core, a trap
+        fdef = c13.dag_dfa_def(rng, nmax=6)
+        check_single(ctx, fdef)
+        if i % 4 == 0:
+            check_pair(ctx, fdef, renamed_copy(rng, fdef, flip=rng.choice([None] + sorted(fdef["states"], key=enc.sort_key))),
+                       "finite_language")
+        if i % 5 == 0:
+            others = [gen.rand_dfa_def(rng, alphabet=sigma)
+                      if rng.random() < 0.7 else renamed_copy(rng, adef) for _ in range(5)]
+            check_session(ctx, adef, others, "session")
         if i % 3 == 0:
             for _ in range(3):
                 x, y, tag = gen.lasso_pair(rng, rng.choice(["a", "a", "ab"]))
@@ -214,6 +274,8 @@ def run(ctx):
 def replay(ctx, case):
     if case["kind"] == "pair":
         check_pair(ctx, load_def(case["A"]), load_def(case["B"]), "replay")
+    elif case["kind"] == "session":
+        check_session(ctx, load_def(case["A"]), [load_def(b) for b in case["Bs"]], "replay")
     elif case["kind"] == "single":
         check_single(ctx, load_def(case["A"]))
     print("replay:", "VIOLATION reproduced" if ctx.violations else "no disagreement")
